@@ -59,6 +59,25 @@ pub fn typecheck(cases: &[&Built]) -> Result<BTreeMap<usize, Vec<String>>, Strin
     Ok(out)
 }
 
+/// The property's fragment allows arrays (and therefore gaps) of at most 32 elements in
+/// defaultable types: `Default` is not implemented for longer arrays.
+fn default_on_long_array(b: &Built) -> bool {
+    fn long_array(ty: &str) -> bool {
+        // squeezed type text: [T;N]
+        let mut rest = ty;
+        while let Some(i) = rest.rfind(';') {
+            let tail = &rest[i + 1..];
+            let n: String = tail.chars().take_while(|c| c.is_ascii_digit()).collect();
+            if n.parse::<u64>().map(|v| v > 32).unwrap_or(false) {
+                return true;
+            }
+            rest = &rest[..i];
+        }
+        false
+    }
+    b.efiles.values().any(|ef| ef.structs.iter().any(|s| s.derives.iter().any(|d| d == "Default") && s.fields.iter().any(|f| long_array(&f.ty))))
+}
+
 fn multi_module_crossref(b: &Built) -> bool {
     b.mods.len() >= 2 && b.mods.iter().any(|(_, m)| !m.uses.is_empty())
 }
@@ -280,6 +299,10 @@ pub fn run(ctx: &mut Ctx) {
                         let mut seen = BTreeSet::new();
                         for e in es {
                             let code = error_code(e);
+                            if code == "E0277" && e.contains(": Default") && default_on_long_array(b) {
+                                ctx.count("outside_fragment/default-on-array-longer-than-32", 1);
+                                continue;
+                            }
                             if seen.insert(code.clone()) {
                                 ctx.violation(&format!("C13/compile-error/{code}"), e, case_json(&b.mods, b.ptrw));
                             }
@@ -307,11 +330,37 @@ pub fn run(ctx: &mut Ctx) {
                 let sc = probe::scratch("d686");
                 crate::layoutdump::dump(&files, &externs, 4, &sc.path)
             };
+            // the emitted transmute size checks cannot be compiled without std: compare their
+            // literal with the size the compiler computes for the 32-bit target instead
+            let size_checks = |b: &Built, res: &crate::layoutdump::DumpResult| -> Vec<String> {
+                let mut out = vec![];
+                for (mp, ef) in &b.efiles {
+                    for f in &ef.fns {
+                        if let crate::emitted::FnKind::SizeCheck { ty, size, .. } = &f.kind {
+                            if let Some(o) = res.layouts.get(&format!("{mp}::{ty}")) {
+                                if o.size != *size as u64 {
+                                    out.push(format!("E0512 size check of `{mp}::{ty}` transmutes [u8; {size:#x}] but the type is {:#x} bytes on i686-pc-windows-msvc", o.size));
+                                }
+                            }
+                        }
+                    }
+                }
+                out
+            };
             let whole = run(chunk);
             if whole.errors.is_empty() {
-                return chunk.iter().enumerate().map(|(i, _)| (i, vec![])).collect();
+                return chunk.iter().enumerate().map(|(i, b)| (i, size_checks(b, &whole))).collect();
             }
-            chunk.iter().enumerate().map(|(i, b)| (i, run(&[*b]).errors)).collect()
+            chunk
+                .iter()
+                .enumerate()
+                .map(|(i, b)| {
+                    let one = run(&[*b]);
+                    let mut e = one.errors.clone();
+                    e.extend(size_checks(b, &one));
+                    (i, e)
+                })
+                .collect()
         })
         .collect();
     for (chunk, r) in chunks4.iter().zip(res4) {
